@@ -352,7 +352,7 @@ func (p *parser) parseList() (item ast.ItemNode, ok bool) {
 			t = p.acceptAny()
 			if _, ok := p.variableNames[t.val]; ok {
 				p.errorf(t, "duplicated variable name %q", t.val)
-				values = append(values, ast.NewEmptyItemNode())
+				values = append(values, ast.NewListNode()) // placeholder, keeps the element count
 			} else {
 				p.variableNames[t.val] = true
 				values = append(values, t.val)
